@@ -123,7 +123,8 @@ def run_cases(chk, tier):
         kind = geo.KINDS[k % 7]
         p = r.choice((1, 2, 3, 5, 10, 15, 20, 31)) if k % 3 else r.randint(1, 31)
         ex, ey = r.choice((1, 2, 4, 16, 1024)), r.choice((1, 2, 8, 64, 4096))
-        lo = (r.choice((0, -8, 1000, -3)), r.choice((0, 16, -1024, 5)))
+        # offsets far from the origin relative to the extent (a relative-tolerance comparison of the ends would call them equal)
+        lo = (r.choice((0, -8, 1000, -3, 2 ** 22, -2 ** 25)), r.choice((0, 16, -1024, 5, 2 ** 24, -2 ** 21)))
         total = [lo[0], lo[1], lo[0] + ex, lo[1] + ey]
         mode = k % 8
         if mode == 5:
